@@ -559,7 +559,7 @@ func (env *Env) indexVal(base Val, bt types.Type, idx *Term) Val {
 	case *types.Slice:
 		if b.sort == SSlice {
 			arr := u.elemsArr(env.st, m.SliceRef(b), tt.Elem())
-			r := m.tb.Select(arr, m.IxAdd(m.SliceOff(b), idx))
+			r := m.tb.Select(arr, m.ElemIx(m.SliceOff(b), idx))
 			if r.bound {
 				u.assumeArrTyping(arr, tt.Elem())
 			} else {
@@ -590,7 +590,7 @@ func (env *Env) binary(x *ast.BinaryExpr) Val {
 		return tb.Or(env.eval(x.X).(*Term), env.eval(x.Y).(*Term))
 	}
 	xt := env.typeOf(x.X)
-	if b, ok := xt.Underlying().(*types.Basic); ok && b.Info()&types.IsUntyped != 0 {
+	if b, ok := xt.Underlying().(*types.Basic); ok && (b.Info()&types.IsUntyped != 0 || b.Kind() == types.UntypedNil) {
 		xt = env.typeOf(x.Y)
 		if b, ok := xt.Underlying().(*types.Basic); ok && b.Info()&types.IsUntyped != 0 {
 			xt = types.Default(xt)
@@ -623,6 +623,17 @@ func (env *Env) binary(x *ast.BinaryExpr) Val {
 
 // evalAs evaluates e, giving untyped constants the type t.
 func (env *Env) evalAs(e ast.Expr, t types.Type) Val {
+	if id, ok := ast.Unparen(e).(*ast.Ident); ok && id.Name == "nil" {
+		if _, isNil := env.info.Uses[id].(*types.Nil); isNil {
+			if pt, ok := t.Underlying().(*types.Pointer); ok && !isStructType(pt.Elem()) {
+				return nil
+			}
+			if _, ok := t.Underlying().(*types.Pointer); ok {
+				return env.u.m.tb.Int(0)
+			}
+			return env.u.m.Zero(t)
+		}
+	}
 	if tv, ok := env.info.Types[ast.Unparen(e)]; ok && tv.Value != nil {
 		if b, ok := tv.Type.Underlying().(*types.Basic); ok && b.Info()&types.IsUntyped != 0 {
 			if _, isInt := intTypeInfo(t); isInt || isBool(t) || isString(t) {
@@ -710,6 +721,14 @@ func (env *Env) call(x *ast.CallExpr) Val {
 		env.old.info = env.info
 		env.old.bound = env.bound
 		return env.old.eval(x.Args[0])
+	case "bigc":
+		tv := env.info.Types[x.Args[0]]
+		if tv.Value == nil {
+			panic(u.errf("contract: bigc needs a string literal"))
+		}
+		return u.bigConst(constant.StringVal(tv.Value))
+	case "mathWrap64":
+		return u.mathWrap64(env.eval(x.Args[0]).(*Term))
 	case "implies":
 		return tb.Implies(env.eval(x.Args[0]).(*Term), env.eval(x.Args[1]).(*Term))
 	case "iff":
